@@ -56,10 +56,31 @@ def multigen_job(rng, jid):
 
 
 def stamp_check(verdict):
-    """resize_stamp for all 31 legal lengths: negative after the shift, pairwise distinct, helper
-    field never carries into the stamp (values from the real function, via `fvh consts`)."""
+    """The model encodes size_ctl during a resize of n bins as RS(n) + k with RS injective in n and
+    negative, k < MAXRES never carrying into the stamp. Here those facts are checked on the values of
+    the real resize_stamp for all 31 legal lengths (64-bit arithmetic; TLC's integers are 32 bit)."""
     import subprocess
     c = json.loads(subprocess.run([lib.FVH, "consts"], stdout=subprocess.PIPE, text=True).stdout)
+    shift, maxr, stamps = c["resize_stamp_shift"], c["max_resizers"], c.get("stamps", [])
+    bad = []
+
+    def s64(x):
+        x &= (1 << 64) - 1
+        return x - (1 << 64) if x >= (1 << 63) else x
+    shifted = [s64(st << shift) for st in stamps]
+    for k, (st, sh) in enumerate(zip(stamps, shifted)):
+        if sh >= 0 or s64(sh + maxr) >= 0:
+            bad.append("stamp(2^%d) << shift is not negative" % k)
+        if ((sh + maxr) & ((1 << 64) - 1)) >> shift != st:
+            bad.append("helper count carries into the stamp of 2^%d" % k)
+    if len(set(stamps)) != len(stamps):
+        bad.append("resize_stamp is not injective over the legal lengths")
+    if len(stamps) != 31:
+        bad.append("expected 31 stamps")
+    if bad:
+        verdict.violation("stamp-arithmetic", "stamps", {"consts": c, "problems": bad},
+                          "resize stamp arithmetic broken for a legal table length: %s" % bad[:3])
+    c["stamp_facts_hold_for_all_31_lengths"] = not bad
     return c
 
 
